@@ -659,6 +659,12 @@ impl X<'_> {
                 }
             }
         }
+        // an unused namespace declaration on the record element itself whose name contains the
+        // characters that end a tag name elsewhere (legal inside a quoted attribute value)
+        if self.proto_attrs && self.ch.choose(&format!("cloud{ci}-rec{ri}-unused-namespace-declaration"), 2) == 1 {
+            attrs.push(("xmlns:unused", "urn:a:b/c>d e".into()));
+            self.notes.push(format!("cloud {ci} record {ri}: unused namespace declaration with ':', '/', '>' and a space in its name"));
+        }
         let name = r.name.clone();
         let saved = self.pfx.clone();
         if let Some(ns) = &r.ns {
